@@ -415,6 +415,11 @@ def run(ctx):
                 add("violation", {"defect": "prefix-operator-glued-to-bracketed-operator-atom", "writer": name},
                     "term %s with ops %r written by %s as %r reads back: %s (C15-1: no space between a prefix operator and the "
                     "bracket of an operator atom that starts its operand)" % (pl_text(c["term"]), c["ops"], name, text, verdict), c)
+            elif verdict != "same" and name != "write_canonical" and last_arg_999(c["term"], merged_ops(default_ops, c["ops"])):
+                ok = False
+                add("violation", {"defect": "last-argument-fy-xfy-999", "writer": name},
+                    "term %s with ops %r written by %s as %r reads back: %s (C15-2: the reader rejects a last argument that is an "
+                    "fy/xfy operator term of priority 999)" % (pl_text(c["term"]), c["ops"], name, text, verdict), c)
             elif verdict != "same":
                 ok = False
                 add("violation", {"what": "roundtrip", "writer": name, "result": verdict, "shape": shape, "user_ops": str(bool(c["ops"]))},
@@ -423,7 +428,8 @@ def run(ctx):
             if mo.startswith("notmodelled"):
                 hist["model_not_modelled"] += 1
             elif verdict != "same" and (has_two_quote_atom(c["term"]) or (name != "write_canonical" and
-                                          prefix_before_opatom(c["term"], merged_ops(default_ops, c["ops"])))):
+                                          (prefix_before_opatom(c["term"], merged_ops(default_ops, c["ops"])) or
+                                           last_arg_999(c["term"], merged_ops(default_ops, c["ops"]))))):
                 pass
             elif not same_tree(parse_sx(mo), want_t):
                 ok = False
@@ -495,6 +501,24 @@ def prefix_before_opatom(t, tbl):
         if x[0] == "c" and leftmost_opatom(x, tbl):
             return True
     return any(prefix_before_opatom(x, tbl) for x in t[2])
+
+
+def last_arg_999(t, tbl):
+    """the shape of defect C15-2: a compound written in functional notation whose last argument is a prefix fy (or infix
+    xfy) operator term of priority exactly 999"""
+    if t[0] != "c":
+        return False
+    classes = {op_class(ty) for p, ty, n in tbl if n == t[1]}
+    ar = len(t[2])
+    functional = not ((ar == 2 and "in" in classes) or (ar == 1 and ("pre" in classes or "post" in classes))
+                      or (t[1] == "." and ar == 2) or (t[1] == "{}" and ar == 1))
+    if functional:
+        x = t[2][-1]
+        if x[0] == "c":
+            for p, ty, n in tbl:
+                if n == x[1] and p == 999 and ((ty == "fy" and len(x[2]) == 1) or (ty == "xfy" and len(x[2]) == 2)):
+                    return True
+    return any(last_arg_999(x, tbl) for x in t[2])
 
 
 def classify(t):
